@@ -1,0 +1,80 @@
+//go:build verif
+
+// Contracts for the deductive verifier in /verif (govc). Comment-only file,
+// compiled only with -tags verif.
+
+package main
+
+// ---------------------------------------------------------------------------
+// C30: the indexing queue
+// ---------------------------------------------------------------------------
+
+// The documented order: not-yet-indexed first, then non-failed, then FIFO.
+//@ func main.lessQueueItemPriority
+//@   requires x != nil && y != nil
+//@   ensures x.indexed != y.indexed ==> result == !x.indexed
+//@   ensures x.indexed == y.indexed && (x.indexState == indexStateFail) != (y.indexState == indexStateFail) ==> result == !(x.indexState == indexStateFail)
+//@   ensures x.indexed == y.indexed && (x.indexState == indexStateFail) == (y.indexState == indexStateFail) ==> result == (x.seq < y.seq)
+//@   assigns nothing
+
+// Heap representation invariant: every slot holds a non-nil item that knows
+// its own position (which also makes the slots pairwise distinct).
+//@ pure func okPQ(pq pqueue) bool = forall k int :: 0 <= k && k < len(pq) ==> pq[k] != nil && pq[k].heapIdx == k
+
+//@ func main.(pqueue).Len
+//@   ensures result == len(pq)
+//@   assigns nothing
+
+//@ func main.(pqueue).Less
+//@   requires okPQ(pq) && 0 <= i && i < len(pq) && 0 <= j && j < len(pq)
+//@   ensures pq[i].indexed != pq[j].indexed ==> result == !pq[i].indexed
+//@   ensures pq[i].indexed == pq[j].indexed && (pq[i].indexState == indexStateFail) == (pq[j].indexState == indexStateFail) ==> result == (pq[i].seq < pq[j].seq)
+//@   assigns nothing
+
+//@ func main.(pqueue).Swap
+//@   requires okPQ(pq) && 0 <= i && i < len(pq) && 0 <= j && j < len(pq)
+//@   ensures okPQ(pq)
+//@   ensures pq[i] == old(pq[j]) && pq[j] == old(pq[i])
+//@   ensures forall k int :: 0 <= k && k < len(pq) && k != i && k != j ==> pq[k] == old(pq[k])
+
+//@ func main.(*pqueue).Pop
+//@   requires pq != nil && okPQ(deref(pq)) && len(deref(pq)) > 0
+//@   ensures okPQ(deref(pq)) && len(deref(pq)) == old(len(deref(pq))) - 1
+//@   ensures forall k int :: 0 <= k && k < len(deref(pq)) ==> deref(pq)[k] == old(deref(pq)[k])
+
+//@ func main.(*pqueue).Push
+//@   requires pq != nil && okPQ(deref(pq)) && typeis(x, "*queueItem") && as(x, "*queueItem") != nil
+//@   requires forall k int :: 0 <= k && k < len(deref(pq)) ==> deref(pq)[k] != as(x, "*queueItem")
+//@   ensures okPQ(deref(pq)) && len(deref(pq)) == old(len(deref(pq))) + 1 && deref(pq)[len(deref(pq))-1] == as(x, "*queueItem")
+//@   ensures forall k int :: 0 <= k && k < old(len(deref(pq))) ==> deref(pq)[k] == old(deref(pq)[k])
+
+// Queue representation invariant: the map is keyed by the item's own repoID;
+// an item with heapIdx >= 0 sits in that slot of the heap.
+//@ pure func okItems(q *Queue) bool = forall k uint32 :: {mapval(q.items, k)} has(q.items, k) ==> q.items[k] != nil && q.items[k].repoID == k
+//@ pure func okLink(q *Queue) bool = forall k uint32 :: {mapval(q.items, k)} has(q.items, k) && q.items[k].heapIdx >= 0 ==> q.items[k].heapIdx < len(q.pq) && q.pq[q.items[k].heapIdx] == q.items[k]
+//@ pure func okQueue(q *Queue) bool = q.items != nil && okItems(q) && okLink(q) && okPQ(q.pq)
+
+// container/heap on a pqueue (assumed; rely/guarantee on the five methods
+// proved above): Remove takes out the item in slot i, marks it off-heap, keeps
+// every other item on the heap and the representation invariant.
+//@ func heap.Remove
+//@   trusted
+//@   requires typeis(h, "*pqueue") && as(h, "*pqueue") != nil && okPQ(deref(as(h, "*pqueue"))) && 0 <= i && i < len(deref(as(h, "*pqueue")))
+//@   ensures okPQ(deref(as(h, "*pqueue"))) && len(deref(as(h, "*pqueue"))) == old(len(deref(as(h, "*pqueue")))) - 1
+//@   ensures old(deref(as(h, "*pqueue"))[i]).heapIdx == -1
+//@   ensures forall k int :: 0 <= k && k < old(len(deref(as(h, "*pqueue")))) && k != i ==> old(deref(as(h, "*pqueue"))[k]).heapIdx >= 0 && old(deref(as(h, "*pqueue"))[k]).heapIdx < len(deref(as(h, "*pqueue"))) && deref(as(h, "*pqueue"))[old(deref(as(h, "*pqueue"))[k]).heapIdx] == old(deref(as(h, "*pqueue"))[k])
+//@   ensures forall p *queueItem :: {p.heapIdx} p != nil && old(p.heapIdx) < 0 ==> p.heapIdx == old(p.heapIdx)
+//@   assigns deref(as(h, "*pqueue")), deref(as(h, "*pqueue"))[*], fieldof(queueItem, heapIdx)
+
+// MaybeRemoveMissing: every entry that is deleted is deleted under its own key
+// (the map stays keyed by repoID), and the representation invariant survives.
+//@ func main.(*Queue).MaybeRemoveMissing
+//@   requires q != nil && okQueue(q) && metricQueueLen != nil && metricQueueCap != nil && debugLog != nil
+//@   loop 1:
+//@     invariant set != nil
+//@   loop 2:
+//@     invariant q.items != nil && okItems(q)
+//@     invariant okPQ(q.pq)
+//@     invariant okLink(q)
+//@   assert at call:delete: has(q.items, item.repoID) && q.items[item.repoID] == item
+//@   ensures okItems(q)
